@@ -214,6 +214,36 @@ impl<const N: usize> Events<N> {
         })
     }
 
+    /// `fetch`: hand the iterator over the queued events (the `EventData` a report is built from) to `f`.
+    pub fn verif_fetch<F, R>(&self, f: F) -> R
+    where
+        F: FnOnce(EventsIter<'_, N>) -> R,
+    {
+        self.fetch(f)
+    }
+
+    /// `watermark`: what `im.rs` hands to `Subscriptions::add` / `report` / `next_report_at`.
+    pub fn verif_watermark(&self) -> EventNumber {
+        self.watermark()
+    }
+
+    /// Visit the events ring by ring (0 = debug, 1 = info, 2 = critical ring), each oldest first.
+    pub fn verif_visit_rings(&self, mut f: impl FnMut(u8, EventNumber)) {
+        self.inner.lock(|state| {
+            let state = state.borrow();
+            for (ring, buf) in [(0u8, &state.buf_debug), (1, &state.buf_info), (2, &state.buf_critical)] {
+                for (k, res) in buf.iter().enumerate() {
+                    if k >= 65536 {
+                        break;
+                    }
+                    let Ok(elem) = res else { break };
+                    let Ok(event) = EventData::from_tlv(&elem) else { break };
+                    f(ring, event.event_number);
+                }
+            }
+        })
+    }
+
     /// Visit the queued events in the order `fetch` iterates them: event number and priority.
     pub fn verif_visit(&self, mut f: impl FnMut(EventNumber, u8)) {
         self.fetch(|events| {
